@@ -20,7 +20,9 @@ package store_test
 //               replayed later; after a snapshot => restart from the snapshot
 //   recovery    manual recovery (raft/peers.json) of a copy of the directory
 //   joiner      a node that joins afterwards (log replay or snapshot install)
-// All dumps must be identical. Excluded exactly as the property says: no
+// The serving node (and a live follower) optionally run with CDC enabled, with
+// a consumer that keeps up or one that never reads; the other paths have CDC
+// off. All dumps must be identical. Excluded exactly as the property says: no
 // norwrandom/norwtime/noparse flags, no db_timeout, no CURRENT_*, no DEFAULT
 // expressions, no RANDOM() in ORDER BY, no 'localtime'.
 
@@ -322,6 +324,32 @@ func c01Case(rt *rapid.T, rec *vstat.Rec) {
 		rec.Label("infra:no-leader")
 		return
 	}
+	// CDC on the node must never change what is applied, whether its consumer
+	// keeps up or not (the other apply paths run without CDC).
+	stopCDC := make(chan struct{})
+	defer close(stopCDC)
+	enableCDC := func(s *store.Store, mode string) {
+		switch mode {
+		case "drained":
+			ch := make(chan *proto.CDCIndexedEventGroup, 4)
+			go func() {
+				for {
+					select {
+					case <-ch:
+					case <-stopCDC:
+						return
+					}
+				}
+			}()
+			s.EnableCDC(ch, nil, rapid.Bool().Draw(rt, "cdcRowIDsOnly"))
+		case "stalled":
+			// a consumer that never reads: the channel is full after one event group
+			s.EnableCDC(make(chan *proto.CDCIndexedEventGroup, 1), nil, false)
+		}
+	}
+	cdcFollower := "off"
+	cdcLeader := rapid.SampledFrom([]string{"off", "off", "drained", "stalled", "stalled"}).Draw(rt, "cdcLeader")
+	enableCDC(a, cdcLeader)
 	node, err := c01StartHTTP(a)
 	if err != nil {
 		rec.Label("infra:http")
@@ -356,6 +384,8 @@ func c01Case(rt *rapid.T, rec *vstat.Rec) {
 			rec.Label("infra:open-b")
 			return
 		}
+		cdcFollower = rapid.SampledFrom([]string{"off", "off", "stalled"}).Draw(rt, "cdcFollower")
+		enableCDC(b, cdcFollower)
 		if err := a.Join(&proto.JoinRequest{Id: "b", Address: b.Addr(), Voter: rapid.Bool().Draw(rt, "bVoter")}); err != nil {
 			rec.Label("inconclusive:join-b")
 			return
@@ -418,6 +448,12 @@ func c01Case(rt *rapid.T, rec *vstat.Rec) {
 			attributed = true
 			divergedEndpoints[ep] = true
 			sig := fmt.Sprintf("C01/diverged{endpoint=%s}", ep)
+			if cdcLeader == "stalled" || cdcFollower == "stalled" {
+				// a node whose CDC consumer does not read is the distinguishing
+				// circumstance; name it so that it is not mistaken for an
+				// endpoint that fails to rewrite
+				sig = fmt.Sprintf("C01/diverged{endpoint=%s,cdc=stalled}", ep)
+			}
 			if rec.KnownHit(sig, known) {
 				continue
 			}
@@ -430,7 +466,7 @@ func c01Case(rt *rapid.T, rec *vstat.Rec) {
 	}
 	finish := func() {
 		nontrivial := ndSent > 0 && paths >= 3
-		rec.Case(nontrivial, fmt.Sprintf("%s|f=%v s=%v x=%v", strings.Join(hist, "||"), followerLive, snapshotBefore, crossSecond))
+		rec.Case(nontrivial, fmt.Sprintf("%s|f=%v s=%v x=%v cdc=%s", strings.Join(hist, "||"), followerLive, snapshotBefore, crossSecond, cdcLeader))
 		for ep := range divergedEndpoints {
 			rec.Label("diverged-endpoint:" + ep)
 		}
@@ -448,6 +484,7 @@ func c01Case(rt *rapid.T, rec *vstat.Rec) {
 		if followerLive {
 			rec.Label("live-follower")
 		}
+		rec.Label("cdc-on-leader:" + cdcLeader)
 		if snapshotBefore {
 			rec.Label("snapshot-before-replay")
 		}
